@@ -345,6 +345,7 @@ pub fn run_isolated(e: &dyn Engine, cases: &[Vec<String>], per_case_timeout_s: u
     let exe = std::env::current_exe().expect("current exe");
     let mut next = 0usize;
     let mut crashes = 0usize;
+    let mut restarts = 0usize;
     while next < n {
         let out_file = dir.join(format!("out_{seq}_{next}.txt"));
         let _ = std::fs::remove_file(&out_file);
@@ -360,7 +361,15 @@ pub fn run_isolated(e: &dyn Engine, cases: &[Vec<String>], per_case_timeout_s: u
             .spawn()
         {
             Ok(c) => c,
-            Err(_) => break,
+            Err(_) => {
+                // could not start a child (loaded machine): wait and try again a few times
+                restarts += 1;
+                if restarts > 8 {
+                    break;
+                }
+                std::thread::sleep(std::time::Duration::from_millis(500));
+                continue;
+            }
         };
         let mut last_len = 0u64;
         let mut last_progress = Instant::now();
@@ -374,7 +383,8 @@ pub fn run_isolated(e: &dyn Engine, cases: &[Vec<String>], per_case_timeout_s: u
             if len != last_len {
                 last_len = len;
                 last_progress = Instant::now();
-            } else if last_progress.elapsed().as_secs() >= per_case_timeout_s {
+            } else if last_progress.elapsed().as_secs() >= (if last_len == 0 { per_case_timeout_s.max(90) } else { per_case_timeout_s }) {
+                // (before its first output the child is still loading the case file: be patient on a loaded machine)
                 let _ = child.kill();
                 let _ = child.wait();
                 break None;
@@ -420,8 +430,15 @@ pub fn run_isolated(e: &dyn Engine, cases: &[Vec<String>], per_case_timeout_s: u
                 if ok {
                     next = n;
                 } else {
-                    // died between cases or could not start: give up on the rest
-                    break;
+                    // the child ended between two cases (killed by the inactivity watchdog while starting up on a loaded
+                    // machine, or by the system): continue with a fresh child from the first case without an outcome
+                    restarts += 1;
+                    match outcomes.iter().position(|o| o.is_none()) {
+                        Some(i) if restarts <= 8 && i >= next => next = i,
+                        Some(i) if restarts <= 8 => next = i,
+                        _ => break,
+                    }
+                    std::thread::sleep(std::time::Duration::from_millis(300));
                 }
             }
         }
@@ -436,6 +453,7 @@ pub fn run_isolated(e: &dyn Engine, cases: &[Vec<String>], per_case_timeout_s: u
                 let mut x = Outcome::default();
                 x.resp = cases[i].iter().map(|_| "not-run".to_string()).collect();
                 x.hung = true;
+                x.tags.push("infra.not-run".into());
                 x
             })
         })
@@ -607,6 +625,10 @@ pub fn run(e: &dyn Engine, o: &Opts) -> Report {
                 let n = c.lines.len();
                 let m = &model[off..off + n];
                 off += n;
+                if outcomes[k].resp.first().map(|r| r == "not-run").unwrap_or(false) {
+                    // the harness could not run this case (see `infra.not-run` in the histogram): nothing to compare
+                    continue;
+                }
                 if let Some(d) = first_diff(e, &c.lines, &outcomes[k].resp, m) {
                     if report.disagreements.len() >= 5 || outcomes[k].hung || (e.isolated() && !report.disagreements.is_empty()) {
                         // Count but do not minimise more than five.
